@@ -29,7 +29,8 @@ func init() {
 	// C11: expiry sweep against restoration; C17: compaction against the
 	// application's own writes
 	auxSched("C11", []string{"G-", "H-", "I-"}, func(sig string) bool {
-		return strings.HasPrefix(sig, "restored-node") || strings.HasPrefix(sig, "fresh-node") || strings.HasPrefix(sig, "node-lost") || sig == "panic"
+		return strings.HasPrefix(sig, "restored-node") || strings.HasPrefix(sig, "fresh-node") || strings.HasPrefix(sig, "node-lost") ||
+			strings.HasPrefix(sig, "routing-table") || strings.HasPrefix(sig, "expired-node") || sig == "panic"
 	})
 	auxSched("C17", []string{"J-"}, func(sig string) bool {
 		return strings.HasPrefix(sig, "local-") || sig == "panic"
